@@ -71,7 +71,10 @@ SPEC = dict(
              "Account / McStateExtra parsers (srcOpaque). c11_src_walk_partial proves srcLocate = locateAccount srcOpaque on every cell that is not an ordinary "
              "shard_state cell; the full equation (all cells) is a closed statement that every run DECIDES by evaluation on every synthetic shard state of the walk "
              "stream together with the library's result (driver op srcloc); c11_src_account_sound_full_partial / c11_src_account_complete_full_partial restate account "
-             "soundness / completeness over the regenerated walk under that closed statement.",
+             "soundness / completeness over the regenerated walk under that closed statement. Steps of the all-cells proof that ARE proved for all inputs: "
+             "c11_src_label_reader (the HmLabel reader of the parser files = the C10 source-tied deserializeHml on every bit string), c11_src_aug_walk (Rd.augWalk = "
+             "parseAugP on every constructed cell, pruned branches anywhere, for agreeing leaf / extra readers), c11_src_shard_account_reader (regenerated "
+             "ShardAccount.deserialize = readShardAccount at the regenerated Account parser, same .cell[0]).",
         level_note='Trusted: Lean kernel; Spec/Cell.lean; the translator harness/translate/pyfunc.py (+ pyobj.py, pybytes.py, pyarith.py) and the declared reading of a '
                    'Cell object in harness/translate/prooffull.py (Cell = PCell, cell[i] = refs[i], get_hash / get_depth = CellInfo.getHash / getDepth, .data / .hash '
                    'property bodies checked against cell.py), validated against the running library whenever source or translator change; Model/Proof.lean '
